@@ -254,7 +254,9 @@ def explore(run_one, unit_name="", max_paths=MAX_PATHS, props=()):
         except EngineSignal as e:  # pragma: no cover
             end, err = "crash", repr(e)
         except BaseException as e:
-            if ctx.dead is not None:
+            if type(e).__name__ == "ExtractionError":
+                end, err = "unsupported", f"extraction refused: {e}"
+            elif ctx.dead is not None:
                 d = ctx.dead
                 if isinstance(d, PathEnd):
                     end = f"end:{d}"
@@ -262,7 +264,7 @@ def explore(run_one, unit_name="", max_paths=MAX_PATHS, props=()):
                     end = "infeasible"
                 else:
                     end, err = "unsupported", f"{d}"
-            else:
+            elif not err:
                 end, err = "crash", "".join(traceback.format_exception(type(e), e, e.__traceback__))[-3000:]
         pruned += ctx.infeasible_pruned
         taken = tuple(c for c, _, _ in ctx.taken)
